@@ -781,6 +781,37 @@ def mask_atoms(expr: ast.AST) -> tuple[set, set]:
     return atoms, axes
 
 
+def split_ifexp(e: ast.AST, conds: list | None = None) -> list:
+    "[(value, [(test, polarity), ...])] of a (nested) conditional expression"
+    conds = conds or []
+    if isinstance(e, ast.IfExp):
+        return split_ifexp(e.body, conds + [(e.test, True)]) + split_ifexp(e.orelse, conds + [(e.test, False)])
+    return [(e, conds)]
+
+
+def guarded_values(fn: ast.FunctionDef, name: str) -> list:
+    """every value a local can be given, with the branch literals under which it is given:
+    [(expression, [(test, polarity), ...])]; the same for an if/elif chain of assignments and for one conditional expression"""
+    from sa.cfg import build_cfg, path_conditions
+
+    g = build_cfg(fn)
+    first = g.entry.succ[0][0]
+    out = []
+    for d in g.nodes:
+        if d.kind == "stmt" and isinstance(d.ast, (ast.Assign, ast.AnnAssign)) and getattr(d.ast, "value", None) is not None:
+            tg = d.ast.targets if isinstance(d.ast, ast.Assign) else [d.ast.target]
+            if not any(isinstance(t, ast.Name) and t.id == name for t in tg):
+                continue
+            ps = path_conditions(g, first, d) if d is not first else [[]]
+            common = None
+            for p in ps:
+                keyed = {(ast.dump(t), lab): (t, lab) for t, lab in p}
+                common = keyed if common is None else {k: v for k, v in common.items() if k in keyed}
+            base = list((common or {}).values())
+            out.extend(split_ifexp(d.ast.value, base))
+    return out
+
+
 def value_candidates(fn: ast.FunctionDef, name_or_none: str | None = None):
     """what a function can return, each with the branch literals under which it is produced:
     [(expression, [(test, polarity), ...])] - for `return <expr>` the expression itself; for `return <name>` every definition of that
